@@ -267,6 +267,7 @@ var documented = map[int][]int{1: {0}, 2: {0, 100, 1000}, 3: {2, 4, 8}, 4: {2, 3
 func resultsCmd(job []byte, out *Out) error {
 	var j struct {
 		SerialHunt int   `json:"serialHunt"`
+		PassHunt   int   `json:"passHunt"`
 		HuntSeed   int64 `json:"huntSeed"`
 		Inputs []struct {
 			ID   int    `json:"id"`
@@ -294,6 +295,33 @@ func resultsCmd(job []byte, out *Out) error {
 		}
 		found++
 		out.Emit(R{"ev": "res", "id": -1, "t": "serial", "param": 5, "n": 1024, "mode": "serialhunt", "seed": j.HuntSeed + sd, "panic": "", "isrunner": true, "mutated": false, "r": fromResult(r)})
+	}
+	// marginal results of every registry runner (P just below / just above 0.01): about 5 % of uniform inputs per runner
+	perRunner := make([]int, 15)
+	for sd := int64(0); sd < int64(j.PassHunt); sd++ {
+		data := bitsToBytes(genBits("uni", 20000, j.HuntSeed+1000003*sd+7))
+		for i, it := range randomness.TestMethodArr {
+			if i >= 15 || perRunner[i] >= 10 {
+				continue
+			}
+			var r *randomness.TestResult
+			func() {
+				defer func() { recover() }()
+				r = it.Runner(data)
+			}()
+			if r == nil {
+				continue
+			}
+			pmin := r.P
+			if i == 3 && r.P2 < pmin {
+				pmin = r.P2
+			}
+			if !(pmin > 1e-5 && pmin < 0.03) {
+				continue
+			}
+			perRunner[i]++
+			out.Emit(R{"ev": "res", "id": -2, "t": testIDs[i], "param": defaults[i], "n": 20000, "mode": "passhunt", "seed": j.HuntSeed + 1000003*sd + 7, "panic": "", "isrunner": true, "mutated": false, "r": fromResult(r)})
+		}
 	}
 	for _, in := range j.Inputs {
 		bits := genBits(in.Mode, in.N, in.Seed)
